@@ -557,8 +557,21 @@ func returnsNonNilError(ret *ssa.Return) bool {
 	if !isErrorType(v.Type()) {
 		return false
 	}
+	// results spilled to a local because of a defer: take the last store in the returning block
+	if u, ok := v.(*ssa.UnOp); ok && u.Op == token.MUL {
+		if a, ok := u.X.(*ssa.Alloc); ok {
+			for _, in := range ret.Block().Instrs {
+				if st, ok := in.(*ssa.Store); ok && st.Addr == ssa.Value(a) {
+					v = st.Val
+				}
+			}
+		}
+	}
 	if isNilConst(v) {
 		return false
+	}
+	if _, ok := v.(*ssa.MakeInterface); ok {
+		return true
 	}
 	if call, ok := v.(*ssa.Call); ok {
 		if f := call.Call.StaticCallee(); f != nil && alwaysNonNilError(f, 0) {
